@@ -8,8 +8,10 @@ chains of depth 0-3 (plain and with-items sub-workflow tasks, parallel asynchron
 seeded random delivery order - incl. pause (root or nested) followed by cancel, cancel while a child's result is in flight,
 stop between a task completion and its follow-up.  Correspondence: the DB tree before / after every operator request and
 every hand-off of a finished child vs the Coq model.  Oracle = the property text (see engine_stoptree docstring).
-OPEN finding printed as KNOWN-FINDING (known_findings.json, signature cancel:subworkflow-started-after-cancel): a
-sub-workflow whose start request was in flight at the time of the cancel is created below the cancelled workflow.
+A sub-workflow whose start request was on its way at the time of the cancel (finding fixed by repo commit 404dec69): it
+must be created CANCELLED, never own a task, its parent task must end CANCELLED (signatures cancel:late-subworkflow-*; the
+start events are compared with start_child_at of the model).  Reverting 404dec69: VIOLATION cancel:late-subworkflow-created-tasks
+/ -not-CANCELLED plus model disagreements on the start events.
 
 Self-test (scratch worktrees, VERIF_REPO): reverting any of the engine fix commits recorded in
 known_findings.json makes this or a sibling engine check report a VIOLATION (see DESIGN.md appendix).
@@ -23,7 +25,7 @@ GEN = ['States', 'WfGuards']
 PROPS = ['C11'] + []
 
 MANIFEST = {
-    'level_text': 'Coq theorems (all programs/states/events/histories): an accepted stop holds the requested state (declared error otherwise, no change), no task is created in a stopped workflow, late results/timers/duplicates do not change it. Execution tree (Model/StopTree.v; every tree, address and state, induction over the tree): closed form of the cancel walk - every unfinished execution below a cancelled one becomes CANCELLED with the message and sends one result, finished ones keep their row, nothing is created; its parent task (Plain or with-items) is CANCELLED once the result is processed; hand-offs in any order reach the same tree, a second hand-off changes nothing; over any sequence of stop/pause/resume requests and hand-offs a sub-workflow has reported exactly once iff finished, and a finished execution never changes again. Decided by correspondence + oracle on the real engine, not proved: that the engine follows the tree model (DB tree compared before/after every operator request and failed/cancelled hand-off), outputs, no task creation below a cancelled execution by requests that were in flight (open finding).',
+    'level_text': 'Coq theorems (all programs/states/events/histories): an accepted stop holds the requested state (declared error otherwise, no change), no task is created in a stopped workflow, late results/timers/duplicates do not change it. Execution tree (Model/StopTree.v; every tree, address and state, induction over the tree): closed form of the cancel walk - every unfinished execution below a cancelled one becomes CANCELLED with the message and sends one result, finished ones keep their row, nothing is created; its parent task (Plain or with-items) is CANCELLED once the result is processed; hand-offs in any order reach the same tree, a second hand-off changes nothing; over any sequence of stop/pause/resume requests, upward reports and hand-offs a sub-workflow has reported exactly once iff finished, a finished execution never changes again and no task or execution is created; a sub-workflow started below a CANCELLED execution (its start request was on its way) is CANCELLED with the parent message, owns no task ever and cancels its parent task. Decided by correspondence + oracle on the real engine, not proved: that the engine follows the tree model (DB tree compared before/after every operator request and failed/cancelled hand-off), outputs.',
     'level_note': 'Model = control-flow core of the engine (one direct-workflow execution, action tasks, joins all/one/N, on-success/on-error/on-complete with guards whose value is part of the program, engine commands fail/succeed/pause/noop, operator pause/resume/stop/rerun/skip, duplicate deliveries). One event = one committed transaction (tx_lock); data flow, policies, with-items and sub-workflows are outside this model (component models / oracles). Tree model (StopTree.v) = workflow executions (state, state_info tag, results sent) with their task executions (state, plain / with-items, owned sub-workflow executions); one function per transaction of stop_workflow / pause_workflow / resume_workflow incl. the upward propagation through Plain parent tasks, and of the parent side of a hand-off; what a resume continues with and completion checks are left to the core model (resumes after which a RUNNING execution has no unfinished task are outside the tree model). Trusted: the harness interception points (rpc client, executor, post_tx_queue threads, scheduler rows, clock, uuid source), view abstraction, Gen/States translator.',
     'technique': 'Coq per-step + history induction; trace correspondence with stop injection; oracle',
     'design_ref': '6 C11, 4, 5',
